@@ -12,7 +12,8 @@ SCALE = {'two': 2, 'zero': 0, 'negative': -1, 'half': 0.5, 'one_and_half': 1.5}
 BORDER = {'zero': 0, 'three': 3, 'negative': -1, 'fraction': 1.5}
 COLOUR = {'name': 'darkblue', 'hex3': '#36c', 'hex6': '#3366CC', 'tuple': (10, 20, 30), 'hex2': '#12', 'hex5': '#12345', 'hex_bad_digit': '#ggg',
           'unknown_name': 'nocolour', 'tuple2': (1, 2), 'tuple_256': (0, 0, 256), 'tuple_negative': (-1, 0, 0), 'alpha_2': (0, 0, 0, 2.0), 'empty': '',
-          'hex_sign': '#+1+2+3', 'hex_space': '# 1 2 3', 'hex_minus': '#-1-2-3', 'hex_underscore': '#12_345', 'hex_0x': '#0x1234'}
+          'hex_sign': '#+1+2+3', 'hex_space': '# 1 2 3', 'hex_minus': '#-1-2-3', 'hex_underscore': '#12_345', 'hex_0x': '#0x1234',
+          'tuple5': (10, 20, 30, 255, 0), 'tuple6': (10, 20, 30, 40, 50, 60), 'tuple0': (), 'tuple1': (7,), 'alpha_256': (0, 0, 0, 256), 'alpha_neg': (0, 0, 0, -1)}
 BINARY = props_routes.BINARY
 CONTENT = 'C14 refusal test'
 
